@@ -533,7 +533,7 @@ def run(ctx):
     import time
 
     quick = ctx.quick
-    maxlenup, maxlenobs, maxlensel, selallmax = 12, 4, 16, 4
+    maxlenup, maxlenobs, maxlensel, selallmax = (8 if quick else 12), 4, 16, 4
     if quick:
         runs, nrand = [([(2, 1), (1, 3)], 3)], 200
     else:
